@@ -55,6 +55,9 @@ func nodeTerms(m *sx.Machine, nodes []*sx.Node) []*smt.Term {
 	for _, s := range m.StrConstTerms() {
 		add(s)
 	}
+	for t := range m.JNTexts() {
+		add(t)
+	}
 	return ts
 }
 
@@ -120,6 +123,14 @@ func NewStringRealizer(m *sx.Machine, md Model) *StringRealizer {
 	for s, t := range m.StrConstMap() {
 		r.consts[md[t].S] = s
 		r.used[s] = true
+	}
+	// the text of a json.Number is determined by its value
+	for t, n := range m.JNTexts() {
+		if v, ok := md[t]; ok {
+			if _, isConst := r.consts[v.S]; !isConst {
+				r.byAbs[v.S] = decimalString(md.Big(n.JN), int(md.Int(n.JK)))
+			}
+		}
 	}
 	return r
 }
